@@ -15,7 +15,58 @@ HPAIR = z3.Function("hash_pair", z3.IntSort(), z3.IntSort(), z3.IntSort())
 HSTR = z3.Function("hash_str", z3.StringSort(), z3.IntSort())
 
 
+HELEM = z3.Function("hash_elem", z3.IntSort(), z3.IntSort())
+HSET = z3.Function("hash_set", z3.IntSort(), z3.IntSort())
+HMIX = z3.Function("hash_mix", z3.IntSort(), z3.IntSort(), z3.IntSort(), z3.IntSort())     # opaque integer arithmetic on hash values (xor, shifts, ...)
+
+
+class HashInt(builtins.int):
+    """the value of the shadowed hash(): a TERM for the solver.  For the interpreter it is the integer 0, so that real dict / set lookups keyed by
+    expressions (code under test may do that) are legal: every lookup collides and falls through to ==, which is a solver-checked fork."""
+
+    def __new__(cls, t):
+        o = builtins.int.__new__(cls, 0)
+        o.t = t
+        return o
+
+    def _sym(s):
+        return sx.SymInt(s.t)
+
+    def __eq__(s, o):
+        return s._sym() == (o._sym() if isinstance(o, HashInt) else o)
+
+    def __ne__(s, o):
+        return s._sym() != (o._sym() if isinstance(o, HashInt) else o)
+
+    def __hash__(s):
+        return 0
+
+    def __repr__(s):
+        return f"<hash {s.t}>"
+
+    def _mix(s, o, code, swap=False):
+        ot = o.t if isinstance(o, (HashInt, sx.SymInt)) else (z3.IntVal(int(o)) if isinstance(o, builtins.int) else None)
+        if ot is None:
+            return NotImplemented
+        return HashInt(HMIX(z3.IntVal(code), ot, s.t) if swap else HMIX(z3.IntVal(code), s.t, ot))
+
+    def __xor__(s, o): return s._mix(o, 1)
+    def __rxor__(s, o): return s._mix(o, 1, True)
+    def __add__(s, o): return s._mix(o, 2)
+    def __radd__(s, o): return s._mix(o, 2, True)
+    def __mul__(s, o): return s._mix(o, 3)
+    def __rmul__(s, o): return s._mix(o, 3, True)
+    def __and__(s, o): return s._mix(o, 4)
+    def __or__(s, o): return s._mix(o, 5)
+    def __mod__(s, o): return s._mix(o, 6)
+    def __sub__(s, o): return s._mix(o, 7)
+    def __lshift__(s, o): return s._mix(o, 8)
+    def __rshift__(s, o): return s._mix(o, 9)
+
+
 def term(x):
+    if isinstance(x, HashInt):
+        return x.t
     if isinstance(x, sx.SymInt):
         return x.t
     if isinstance(x, bool):
@@ -27,32 +78,45 @@ def term(x):
 
 def sym_hash(x):
     from symreal import symstr
+    if isinstance(x, HashInt):
+        return x                                   # hash(int) of a hash value: itself (Python's own rule for small ints, opaque here)
     if isinstance(x, (sx.SymReal, sx.SymInt)):
-        return sx.SymInt(HNUM(sx.R(x)))
+        return HashInt(HNUM(sx.R(x)))
     if isinstance(x, bool) or isinstance(x, (builtins.int, builtins.float)):
         if isinstance(x, builtins.float) and (x != x or x in (float("inf"), float("-inf"))):
-            return sx.SymInt(z3.IntVal(builtins.hash(x)))
-        return sx.SymInt(HNUM(sx.R(x)))
+            return HashInt(z3.IntVal(builtins.hash(x)))
+        return HashInt(HNUM(sx.R(x)))
     if isinstance(x, symstr.SymStr):
-        return sx.SymInt(HSTR(x.t))
+        return HashInt(HSTR(x.t))
     if isinstance(x, str):
-        return sx.SymInt(HSTR(z3.StringVal(x)))
+        return HashInt(HSTR(z3.StringVal(x)))
     if x is None:
-        return sx.SymInt(z3.IntVal(0))
+        return HashInt(z3.IntVal(0))
     if isinstance(x, tuple):
         acc = z3.IntVal(len(x))
         for c in x:
             acc = HPAIR(acc, sym_hash(c).t)
-        return sx.SymInt(acc)
-    if isinstance(x, frozenset):
-        raise sx.Unsupported("hash(frozenset) of symbolic content")
+        return HashInt(acc)
+    if isinstance(x, frozenset) or type(x).__name__ in ("NDFrozenSet",):
+        # order-insensitive: a sum (commutative for the solver) of an opaque function of the element hashes; elements are de-duplicated by
+        # identical hash TERM only (a set with symbolically-equal members is over-approximated: a spurious model is weeded out by the replay)
+        seen, parts = set(), []
+        for c in list(x):
+            t = sym_hash(c).t
+            k = t.sexpr()
+            if k not in seen:
+                seen.add(k)
+                parts.append(HELEM(t))
+        return HashInt(HSET(z3.Sum(parts) if parts else z3.IntVal(0)))
     h = type(x).__hash__
     if h is None:
         raise TypeError(f"unhashable type: '{type(x).__name__}'")
     r = h(x)
-    if isinstance(r, sx.SymInt):
+    if isinstance(r, HashInt):
         return r
-    return sx.SymInt(z3.IntVal(r))
+    if isinstance(r, sx.SymInt):
+        return HashInt(r.t)
+    return HashInt(z3.IntVal(r))
 
 
 def inject_hash():
